@@ -121,7 +121,8 @@ pub fn check_buffer(c: &BufCase, st: &mut Stats) -> Result<(), String> {
 pub struct SizeCase {
     /// total attribute bytes aimed at (multiple of 4) — or the single value length for shape 3
     pub target: u32,
-    /// 0 two DATA, 1 many empty attributes + DATA, 2 DATA + SOFTWARE + integrity/fingerprint tail, 3 single oversized attribute
+    /// 0 two DATA, 1 many empty attributes + DATA, 2 DATA + SOFTWARE + integrity/fingerprint tail, 3 single oversized DATA,
+    /// 4 MOBILITY-TICKET, 5 PADDING, 6 PASSWORD-ALGORITHM, 7 PASSWORD-ALGORITHMS, 8 UNKNOWN-ATTRIBUTES of the target length
     pub shape: u8,
     pub slack: u32,
 }
@@ -159,7 +160,17 @@ fn build_size(c: &SizeCase) -> RMsg {
                 RAttr::Fp(FpSpec::Computed(Fault::Correct)),
             ]
         }
-        _ => vec![RAttr::Priority(7), RAttr::Data(vec![0x5A; t])],
+        3 => vec![RAttr::Priority(7), RAttr::Data(vec![0x5A; t])],
+        // single large attribute of every kind whose constructor takes a value of unbounded size; for the
+        // PASSWORD-ALGORITHM kinds `target` is the length of the parameters (inner 16-bit length field)
+        4 => vec![RAttr::MobilityTicket(vec![0x5A; t])],
+        5 => vec![RAttr::Padding("p".repeat(t))],
+        6 => vec![RAttr::PasswordAlgorithm(RAlg { id: 2, params: vec![0x11; t] })],
+        7 => vec![
+            RAttr::Software("x".into()),
+            RAttr::PasswordAlgorithms(vec![RAlg { id: 1, params: vec![] }, RAlg { id: 0x77, params: vec![0x22; t] }, RAlg { id: 2, params: vec![] }]),
+        ],
+        _ => vec![RAttr::UnknownAttributes((0..t / 2).map(|i| i as u16).collect())],
     };
     RMsg {
         method: 3,
@@ -169,27 +180,52 @@ fn build_size(c: &SizeCase) -> RMsg {
     }
 }
 
+/// value length (without attribute header and outer padding) of the attribute kinds used by the size cases
+fn size_value_len(a: &RAttr) -> usize {
+    let alg = |x: &RAlg| 4 + x.params.len() + (4 - x.params.len() % 4) % 4;
+    match a {
+        RAttr::Data(d) | RAttr::MobilityTicket(d) => d.len(),
+        RAttr::Software(s) | RAttr::Padding(s) => s.len(),
+        RAttr::Priority(_) => 4,
+        RAttr::Mi(_) => 20,
+        RAttr::MiSha256(_) => 32,
+        RAttr::Fp(_) => 4,
+        RAttr::PasswordAlgorithm(x) => alg(x),
+        RAttr::PasswordAlgorithms(l) => l.iter().map(alg).sum(),
+        RAttr::UnknownAttributes(v) => v.len() * 2,
+        _ => 0,
+    }
+}
+
 pub fn check_size(c: &SizeCase, st: &mut Stats) -> Result<(), String> {
     let msg = build_size(c);
-    let lib = crate::conv::to_lib_msg(&msg).map_err(|e| format!("HARNESS-size case not constructible: {}", e))?;
+    let lib = match crate::conv::to_lib_msg(&msg) {
+        Ok(l) => l,
+        Err(e) if c.shape >= 4 => {
+            // the constructor of this kind has a limit of its own and refuses the value: nothing to encode
+            let _ = e;
+            st.class(&format!("shape:{}:constructor-refuses-length", c.shape));
+            return Ok(());
+        }
+        Err(e) => return Err(format!("HARNESS-size case not constructible: {}", e)),
+    };
     // size by arithmetic (the reference encoder is only run when the message fits)
     let attr_total: usize = msg
         .attrs
         .iter()
         .map(|a| {
-            let l = match a {
-                RAttr::Data(d) | RAttr::MobilityTicket(d) => d.len(),
-                RAttr::Software(s) => s.len(),
-                RAttr::Priority(_) => 4,
-                RAttr::Mi(_) => 20,
-                RAttr::MiSha256(_) => 32,
-                RAttr::Fp(_) => 4,
-                _ => 0,
-            };
+            let l = size_value_len(a);
             4 + l + (4 - l % 4) % 4
         })
         .sum();
-    let single_too_big = msg.attrs.iter().any(|a| matches!(a, RAttr::Data(d) if d.len() > 65535));
+    let single_too_big = msg.attrs.iter().any(|a| {
+        size_value_len(a) > 65535
+            || match a {
+                RAttr::PasswordAlgorithm(x) => x.params.len() > 65535,
+                RAttr::PasswordAlgorithms(l) => l.iter().any(|x| x.params.len() > 65535),
+                _ => false,
+            }
+    });
     let fits = attr_total <= 65535 && !single_too_big;
     st.class(&format!("shape:{}", c.shape));
     st.class(if fits { "fits-16-bit" } else { "exceeds-16-bit" });
@@ -266,6 +302,16 @@ pub fn size_cases(thorough: bool) -> Vec<SizeCase> {
             shape: 3,
             slack: 16,
         });
+    }
+    // every value / parameter length around the 16-bit limits, for each kind with an unbounded constructor
+    let mut lens: Vec<u32> = (65500u32..=65545).collect();
+    lens.extend([32764, 32768, 65000, 70000, 131072]);
+    for shape in 4u8..=8 {
+        for t in &lens {
+            for slack in [0u32, 16] {
+                v.push(SizeCase { target: *t, shape, slack });
+            }
+        }
     }
     v
 }
